@@ -64,7 +64,7 @@ def type_head(t):
 
 
 class CalleeKey(object):
-    __slots__ = ('self_ty', 'trait', 'method', 'path', 'raw', 'self_full', 'trait_full', 'gen')
+    __slots__ = ('self_ty', 'trait', 'method', 'path', 'raw', 'self_full', 'trait_full', 'gen', 'type_args')
 
 
 _CALLEE_CACHE = {}
@@ -84,6 +84,7 @@ def _parse_callee(text):
     k.raw = text
     k.self_ty = k.trait = k.method = k.path = k.self_full = k.trait_full = None
     k.gen = None
+    k.type_args = None
     t = text.strip()
     if t.startswith('<'):
         j = mir.match_paren(t, 0)
@@ -102,6 +103,7 @@ def _parse_callee(text):
             k.trait = trait_key(k.trait_full)
         segs = [x for x in _split_path(rest) if x]
         k.gen = [s for s in segs if s.startswith('<')]
+        k.type_args = _type_args_of(k.self_full)
         segs = [s for s in segs if not s.startswith('<')]
         k.method = '::'.join(segs)
         return k
@@ -109,6 +111,15 @@ def _parse_callee(text):
     gens = [s for s in segs if s.startswith('<')]
     names = [s for s in segs if not s.startswith('<')]
     k.path = '::'.join(names)
+    # `Type::<targs>::method::<margs>`: a group right after the second-to-last name holds the type's arguments
+    k.type_args = None
+    if len(names) >= 2:
+        idx = [i for i, sg in enumerate(segs) if not sg.startswith('<')]
+        ti = idx[-2]
+        if ti + 1 < len(segs) and segs[ti + 1].startswith('<'):
+            k.type_args = [a for a in mir.split_top(segs[ti + 1][1:-1]) if a and not a.startswith("'")]
+        mi = idx[-1]
+        gens = [segs[mi + 1]] if mi + 1 < len(segs) and segs[mi + 1].startswith('<') else []
     k.gen = gens
     if len(names) >= 2:
         k.self_ty = names[-2]
@@ -116,6 +127,18 @@ def _parse_callee(text):
     else:
         k.method = names[-1]
     return k
+
+
+def _type_args_of(t):
+    """`InferredGoal<U, E, Goal<U, E>>` -> ['U', 'E', 'Goal<U, E>']"""
+    if not t:
+        return None
+    t = t.strip()
+    t = re.sub(r"^&('\w+ )?(mut )?", '', t)
+    i = t.find('<')
+    if i < 0 or not t.endswith('>'):
+        return None
+    return [a for a in mir.split_top(t[i + 1:-1]) if a and not a.startswith("'")]
 
 
 def _top_as_angle(s):
@@ -207,6 +230,7 @@ class Program(object):
         self.src_roots = []
         self.defaults = {}     # (trait, method) -> fn name (trait default bodies)
         self.closures = {}     # closure span text -> fn name
+        self.impl_variants = {}  # same key -> [(impl header text, fn name)] when several impls differ only in type arguments
 
     def load(self, mir_path, src_root, crate=''):
         text = open(mir_path).read()
@@ -266,13 +290,85 @@ class Program(object):
                     self.impls.setdefault((owner, trait, method), name)
                 return
             ty, trait = _parse_impl_header(hdr, path, int(m.group(2)), method)
+            if '::' in method and '{' not in method:
+                # function nested inside a method body (`anyvars::collect`)
+                self.free.setdefault(method, name)
+                self.free.setdefault('%s::%s' % (ty, method), name)
             self.impls.setdefault((ty, trait, method), name)
+            self.impl_variants.setdefault((ty, trait, method), []).append((' '.join(hdr.split()), name))
             return
         parts = name.split('::')
         # trait default methods look like `Trait::method`
         if len(parts) == 2 and re.match(r'^[A-Z]', parts[0]) and '{' not in name:
             self.defaults.setdefault((parts[0], parts[1]), name)
         self.free.setdefault(name, name)
+
+    def impl_generics(self, name):
+        """(generic parameter names of the impl block, argument patterns of its self type)"""
+        if not hasattr(self, '_ig'):
+            self._ig = {}
+        if name in self._ig:
+            return self._ig[name]
+        res = ([], [])
+        m = re.search(r'<impl at ([^:>]+):(\d+):(\d+): (\d+):(\d+)>', name)
+        if m:
+            for root in self.src_roots:
+                pth = os.path.join(root, m.group(1))
+                if os.path.exists(pth):
+                    hdr = ' '.join(_span_text(pth, int(m.group(2)), int(m.group(3)), int(m.group(4)), int(m.group(5))).split())
+                    if hdr.startswith('impl<'):
+                        j = mir.match_paren(hdr, 4)
+                        params = []
+                        for part in mir.split_top(hdr[5:j]):
+                            part = part.strip()
+                            if part and not part.startswith("'") and not part.startswith('const '):
+                                params.append(re.match(r'\w+', part).group(0))
+                        rest = re.split(r'\bwhere\b', hdr[j + 1:])[0].strip()
+                        selfty = rest.split(' for ')[-1].strip()
+                        res = (params, _type_args_of(selfty) or [])
+                    break
+        self._ig[name] = res
+        return res
+
+    def method_generics(self, name):
+        """Names of the generic type parameters declared on the function itself (not on its impl),
+        read from the source text; [] if none / unknown."""
+        if not hasattr(self, '_mg'):
+            self._mg = {}
+        if name in self._mg:
+            return self._mg[name]
+        out = []
+        base = name.split('::{closure')[0]
+        meth = base.split('::')[-1]
+        m = re.search(r'<impl at ([^:>]+):(\d+):(\d+): (\d+):(\d+)>', base)
+        texts = []
+        if m:
+            for root in self.src_roots:
+                pth = os.path.join(root, m.group(1))
+                if os.path.exists(pth):
+                    ls = _lines(pth)
+                    texts.append('\n'.join(ls[int(m.group(2)) - 1:]))
+                    break
+        else:
+            for root in self.src_roots:
+                for dp, dn, fn in os.walk(root):
+                    if 'target' in dp.split(os.sep):
+                        continue
+                    for f in fn:
+                        if f.endswith('.rs'):
+                            texts.append('\n'.join(_lines(os.path.join(dp, f))))
+        for txt in texts:
+            mm = re.search(r'\bfn\s+%s\s*<' % re.escape(meth), txt)
+            if mm:
+                j = mir.match_paren(txt, mm.end() - 1)
+                for part in mir.split_top(txt[mm.end():j]):
+                    part = part.strip()
+                    if not part or part.startswith("'") or part.startswith('const '):
+                        continue
+                    out.append(re.match(r'\w+', part).group(0))
+                break
+        self._mg[name] = out
+        return out
 
     def enum_index(self, ty, variant):
         vs = self.enums.get(ty)
@@ -484,7 +580,7 @@ class Ctx(object):
 # ==============================================================================================
 
 class Frame(object):
-    __slots__ = ('fn', 'cells')
+    __slots__ = ('fn', 'cells', 'generics')
 
 
 def bvw(ty):
@@ -526,6 +622,7 @@ class Machine(object):
         self.depth = 0
         self.max_depth = max_depth
         self.trace = []
+        self.frames = []
         self.called = set()
         self.statics = {}
 
@@ -552,7 +649,7 @@ class Machine(object):
             v = self.ctx.resolve(load(r, self.ctx.resolve))
             if isinstance(v, Ref):
                 return v
-            if isinstance(v, Adt) and v.ty in ('NonNull', 'Unique') and v.fields and isinstance(v.fields[0], Ref):
+            if isinstance(v, Adt) and v.ty in ('NonNull', 'Unique', 'Rc') and v.fields and isinstance(v.fields[0], Ref):
                 return v.fields[0]
             if isinstance(v, Adt) and v.ty in ('Box', 'Rc', 'NonNull', 'Unique'):
                 return Ref(r.cell, r.path + (0,))
@@ -930,7 +1027,31 @@ class Machine(object):
         raise NotEncodable('cast kind ' + kind)
 
     # ---- calls --------------------------------------------------------------------------
-    def call_fn(self, name, args):
+    def resolve_param(self, ty):
+        """A generic parameter name -> head of the type it stands for (frame bindings first, then the
+        run's global instantiation U/E/G); other names are returned unchanged."""
+        fg = self.frames[-1].generics if self.frames else None
+        if fg and ty in fg:
+            t2 = type_head(fg[ty])
+            if not re.fullmatch(r'[A-Z]\w?', t2):
+                return t2
+            ty = t2
+        return self.generics.get(ty, ty)
+
+    def subst_generics(self, text):
+        g = self.frames[-1].generics if self.frames else None
+        if not g:
+            return text
+        return re.sub(r'\b(%s)\b' % '|'.join(map(re.escape, g)), lambda mm: g[mm.group(1)], text)
+
+    def generic_args(self, key):
+        """Explicit generic arguments of a call (last `::<..>` group), resolved through the
+        calling frame's own generic parameters."""
+        if not key.gen:
+            return []
+        return [a for a in mir.split_top(self.subst_generics(key.gen[-1][1:-1])) if a and not a.startswith("'")]
+
+    def call_fn(self, name, args, gmap=None):
         """Execute the MIR body of function `name` with argument values `args`."""
         f = self.p.fns.get(name)
         if f is None:
@@ -941,6 +1062,9 @@ class Machine(object):
             raise NotEncodable('call depth bound reached in ' + name)
         fr = Frame()
         fr.fn = f
+        fr.generics = gmap
+        if gmap is None and self.frames and '{closure' in name:
+            fr.generics = self.frames[-1].generics     # closures see their parent's parameters
         fr.cells = {}
         for n in f.locals:
             fr.cells[n] = Cell(None)
@@ -951,9 +1075,11 @@ class Machine(object):
         for i, a in enumerate(args):
             fr.cells[i + 1].v = a
         self.depth += 1
+        self.frames.append(fr)
         try:
             return self.run(fr)
         finally:
+            self.frames.pop()
             self.depth -= 1
 
     def run(self, fr):
@@ -1050,7 +1176,20 @@ class Machine(object):
         name = self.resolve_fn(key, args)
         if name is None:
             raise NotEncodable('no model and no MIR body for callee `%s`' % callee)
-        return self.call_fn(name, args)
+        gmap = {}
+        if key.gen:
+            names = self.p.method_generics(name)
+            ga = self.generic_args(key)
+            if names and len(names) == len(ga):
+                gmap.update(zip(names, ga))
+        if key.type_args:
+            params, pattern = self.p.impl_generics(name)
+            targs = [self.subst_generics(a) for a in key.type_args]
+            if params and len(pattern) == len(targs):
+                for pat, arg in zip(pattern, targs):
+                    if pat in params:
+                        gmap[pat] = arg
+        return self.call_fn(name, args, gmap or None)
 
     def deref_all(self, v):
         v = self.ctx.resolve(v)
@@ -1061,6 +1200,20 @@ class Machine(object):
             while isinstance(v, Ref):
                 v = self.ctx.resolve(load(v, self.ctx.resolve))
         return v
+
+    def goal_kind(self, x, depth=0):
+        """'Goal' / 'DFSGoal' if the (dereferenced) value holds a goal of that kind in its own fields."""
+        x = self.deref_all(x) if depth == 0 else self.ctx.resolve(x)
+        if isinstance(x, Adt):
+            if x.ty in ('Goal', 'DFSGoal'):
+                return x.ty
+            if depth < 4:
+                for f in x.fields:
+                    if isinstance(f, Adt):
+                        g = self.goal_kind(f, depth + 1)
+                        if g:
+                            return g
+        return None
 
     def runtime_type(self, v):
         v = self.deref_all(v)
@@ -1108,8 +1261,7 @@ class Machine(object):
                     return n
             return None
         ty = key.self_ty
-        if ty in self.generics:
-            ty = self.generics[ty]
+        ty = self.resolve_param(ty)
         cands = [ty]
         if ty in ('Self',) or re.fullmatch(r'[A-Z]\w?', ty or '') or (ty or '').startswith('dyn ') or (ty or '').startswith('<'):
             rt = self.runtime_type(args[0]) if args else None
@@ -1118,6 +1270,17 @@ class Machine(object):
         for t in cands:
             n = p.impls.get((t, key.trait, key.method))
             if n:
+                vs = p.impl_variants.get((t, key.trait, key.method), [])
+                if len(vs) > 1 and args:
+                    # impls that differ only in a type argument (`Conde<U, E, Goal<U, E>>` vs `Conde<U, E, DFSGoal<U, E>>`)
+                    kind = self.goal_kind(args[0]) or self.generics.get('G')
+                    for hdr, nm in vs:
+                        hs = hdr.split(' for ')[-1]
+                        has_dfs = 'DFSGoal<' in hs
+                        if kind == 'DFSGoal' and has_dfs:
+                            return nm
+                        if kind == 'Goal' and not has_dfs and 'Goal<' in hs:
+                            return nm
                 return n
             # trait key may carry an argument that the impl header spells differently
             base = key.trait.split('<')[0] if key.trait else None
